@@ -62,6 +62,11 @@ def check_equiv(inp):
     if pa.equivalence(pb):
         if a[0] != b[0] or sorted(a[2]) != sorted(b[2]) or a[3] != b[3]:
             return f"one-command programs {a} and {b} are reported equivalent"
+        if a[0] == "BSgate" and tuple(a[2]) != tuple(b[2]):
+            import math
+            th, ph = a[1]
+            if abs(math.sin(th)) > 1e-3 and abs((ph % math.pi) - math.pi / 2) > 1e-3:
+                return f"asymmetric beamsplitters on opposite mode orders {a} and {b} are reported equivalent"
     return None
 
 
